@@ -605,8 +605,8 @@ func c13Run(c *core.Ctx) {
 			}
 			if !dead && c.Mine() {
 				b := bound
-				if n == maxLen && n >= 4 {
-					b = 2 // deepest sequences: preemption bound 2
+				if n == maxLen && n >= 3 {
+					b = bound - 1 // longest sequences: one deviation less
 				}
 				c13RunSeq(c, ops, b)
 				if nsamples < 2 && c13HasSharedChild(ops) && n >= 2 {
@@ -763,7 +763,7 @@ func init() {
 		ID:    "C13",
 		Level: "model_checking",
 		Rule: "X: every sequence of <=3 (thorough <=4) operations over 17 kinds (print/printf to stdout, > file, >> file, | two commands, close, fflush, system, cmd|getline, getline<file, exit status of closed commands, exit, run-time error) run on the real interpreter over virtual processes, with unbuffered and bufio-wrapped Config.Output, against a destination model (state = one sequence); " +
-			"S: for sequences with a child sharing stdout, every interleaving of program/child/copy threads up to 2 (thorough 3) preemptions under a cooperative scheduler where each Write to Config.Output is a two-event critical section (transition = one schedule); " +
+			"S: for sequences with a child sharing stdout, every schedule of program/child/copy threads with up to 2 (thorough 3; one less for the longest sequences) deviations from the default scheduler (a preemption or a non-default pick at a blocking point) under a cooperative scheduler where each Write to Config.Output is a two-event critical section (transition = one schedule); " +
 			"D: a write failure at every byte offset of stdout for 11 output paths x {unbuffered, bufio}, plus the CLI with stdout=/dev/full; distinct = distinct stdout/file observations",
 		Assumptions: []string{
 			"child processes and os/exec are replaced by the vexec model (scripted processes, bounded in-memory pipes, a copy thread for a non-*os.File Stdout exactly as os/exec does); kernel pipe buffering is not modelled",
